@@ -304,6 +304,76 @@ def run_default_constants(eng, p):
                        'signature': 'default constant of another sort'})
 
 
+def run_reset(eng, p):
+    """collect_information starts from empty tables: no symbol table (or
+    cache) of an earlier input survives reset_information -- sorts are
+    inferred from the current input only."""
+    import ast
+    sm = eng.load_module('ddsmt.smtlib')
+    path = eng.source_path('ddsmt.smtlib')
+    tree = ast.parse(open(path).read())
+    fns = {n.name: n for n in tree.body if isinstance(n, ast.FunctionDef)}
+    tables = set()
+    # every module-level table: what collect_information / the sort
+    # inference declare global, and every module-level dict / set whose name
+    # starts with two underscores (tables and caches)
+    for fn in ('collect_information', 'reset_information', 'get_sort'):
+        for n in ast.walk(fns[fn]):
+            if isinstance(n, ast.Global):
+                tables.update(n.names)
+    for st in tree.body:
+        if isinstance(st, ast.Assign) and len(st.targets) == 1 and isinstance(
+                st.targets[0], ast.Name) and st.targets[0].id.startswith(
+                    '__') and isinstance(st.value, (ast.Dict, ast.Call)):
+            if isinstance(st.value, ast.Dict) or (
+                    isinstance(st.value.func, ast.Name) and
+                    st.value.func.id in ('set', 'dict')):
+                tables.add(st.targets[0].id)
+    tables = sorted(tables)
+    p.oblige('C16/reset_information/finds-the-tables', len(tables) >= 8,
+             info=repr(tables))
+    from pyvc.interp import SymDict, SymSet
+    marker = object()
+    for t in tables:
+        old = sm.g.get(t)
+        if isinstance(old, (set, frozenset, SymSet)) or (
+                isinstance(old, ObjVal) is False and 'ids' in t or
+                t in ('__indices', '__definition_node_ids')):
+            sm.g[t] = eng.mk_set(['stale'])
+        else:
+            d = SymDict()
+            sm.g[t] = eng.dict_set(d, 'stale', 'stale')
+    out = outcome(eng, sm.g['reset_information'], [])
+    p.oblige('C16/reset_information/raises-nothing', out.kind == 'return',
+             info=repr(out))
+    stale = []
+    for t in tables:
+        v = sm.g.get(t)
+        try:
+            n = len(v.elems) if isinstance(v, SymSet) else len(
+                list(eng.dict_items(v))) if isinstance(
+                    v, (dict, SymDict)) else len(v)
+        except Exception:  # noqa
+            n = -1
+        if n != 0:
+            stale.append(t)
+    p.oblige('C16/reset_information/clears-every-table', not stale,
+             info={'not cleared': stale, 'signature': 'a symbol table or '
+                   'cache of an earlier input survives: sorts are inferred '
+                   'from stale information'})
+    # and collect_information begins with it
+    ci = fns['collect_information']
+    first = [st for st in ci.body if not (isinstance(st, ast.Expr) and
+                                          isinstance(st.value, ast.Constant))
+             and not isinstance(st, ast.Global)][:1]
+    ok = bool(first) and isinstance(first[0], ast.Expr) and isinstance(
+        first[0].value, ast.Call) and ast.unparse(
+            first[0].value.func) == 'reset_information'
+    p.oblige('C16/collect_information/starts-from-empty-tables', ok,
+             info={'signature': 'collect_information does not reset the '
+                   'tables first'})
+
+
 def contracts(tier):
     A = [nm.ASSUME_LAZY, nm.ASSUME_EQ_CONTRACT,
          'typing table (contracts/c16.py: table()) is the specification; '
@@ -323,6 +393,12 @@ def contracts(tier):
                            'get_sort on the bound term of a let answered by '
                            'its contract; the loop over sub-terms verified '
                            'for the binder under test']))
+    cs.append(Contract('C16/reset_information',
+                       ['ddsmt.smtlib.reset_information',
+                        'ddsmt.smtlib.collect_information'], run_reset,
+                       setup=setup, assumptions=[
+                           'tables = the module-level names of smtlib.py that '
+                           'collect_information declares global or mutates']))
     cs.append(Contract('C16/get_default_constants',
                        ['ddsmt.smtlib.get_default_constants'],
                        run_default_constants, setup=setup, assumptions=A))
